@@ -149,6 +149,14 @@ def check(recipe) -> list[Fail]:
     base = _recs(recipe["base"], 0)
     sess = _recs(recipe["session"], len(base))
     recov = _recs(recipe["recovery"], len(base) + len(sess))
+    ek = recipe.get("empty_key")
+    if ek is not None:
+        # one record of the history is stored under the empty key (an ordinary key)
+        j = ek % (len(base) + len(sess))
+        if j < len(base):
+            base[j] = (b"", base[j][1])
+        else:
+            sess[j - len(base)] = (b"", sess[j - len(base)][1])
     reuse_torn = bool(recipe.get("reuse_torn_key", True))
     only = recipe.get("only_offset")
     only2 = recipe.get("only_offset2")
@@ -309,6 +317,8 @@ def classify(recipe):
         labels.append("value_gt_io_buffer")
     if recipe.get("second_crash_every"):
         labels.append("second_crash")
+    if recipe.get("empty_key") is not None:
+        labels.append("has_empty_key")
     return False, labels   # non-trivial units are the crash offsets, reported through tally()
 
 
@@ -326,6 +336,7 @@ def strat(tier):
             "recovery": st.lists(small_pair, min_size=0, max_size=2),
             "reuse_torn_key": st.booleans(),
             "second_crash_every": st.sampled_from([0, 0, 17] if not big else [0, 5, 1]),
+            "empty_key": st.one_of(st.none(), st.none(), st.integers(0, 6)),
         }
     )
 
